@@ -71,6 +71,15 @@ type handlerLog struct {
 	// onPing, if set, runs inside the ping handler (an application may call
 	// connection methods from its handlers).
 	onPing func()
+	// reinstallAfter >= 0: the handler of that event installs a fresh set of
+	// handlers (generation gen+1) before it returns.  Zero value of the
+	// struct must mean "never": callers set -1 via newHandlerLog or leave
+	// reinstall unset (see reinstall).
+	reinstallAfter int
+	reinstall      bool
+	gen            int
+	defPing        func(string) error
+	defClose       func(int, string) error
 }
 
 type hEvent struct {
@@ -79,6 +88,7 @@ type hEvent struct {
 	Code    int // close code for close events
 	Req     int // ReadProgress at the time of the call (-2 if not tracked)
 	Bytes   int
+	Gen     int // generation of the handler set that saw the event
 }
 
 func (h *handlerLog) add(e hEvent) {
@@ -90,9 +100,22 @@ func (h *handlerLog) add(e hEvent) {
 }
 
 func (h *handlerLog) install(c *websocket.Conn) {
-	defPing, defClose := c.PingHandler(), c.CloseHandler()
+	if h.defPing == nil {
+		h.defPing, h.defClose = c.PingHandler(), c.CloseHandler()
+	}
+	defPing, defClose := h.defPing, h.defClose
+	gen := h.gen
+	// after runs at the end of every handler: an application may replace its
+	// handlers from inside a handler; the replacement serves the next frame
+	after := func() {
+		if h.reinstall && len(h.Events)-1 == h.reinstallAfter && gen == h.gen {
+			h.gen++
+			h.install(c)
+		}
+	}
 	c.SetPingHandler(func(s string) error {
-		h.add(hEvent{Op: wsref.OpPing, Payload: s})
+		h.add(hEvent{Op: wsref.OpPing, Payload: s, Gen: gen})
+		defer after()
 		if h.onPing != nil {
 			h.onPing()
 		}
@@ -105,14 +128,16 @@ func (h *handlerLog) install(c *websocket.Conn) {
 		return defPing(s)
 	})
 	c.SetPongHandler(func(s string) error {
-		h.add(hEvent{Op: wsref.OpPong, Payload: s})
+		h.add(hEvent{Op: wsref.OpPong, Payload: s, Gen: gen})
+		defer after()
 		if h.failAt == len(h.Events)-1 {
 			return h.failErr
 		}
 		return nil
 	})
 	c.SetCloseHandler(func(code int, text string) error {
-		h.add(hEvent{Op: wsref.OpClose, Payload: text, Code: code})
+		h.add(hEvent{Op: wsref.OpClose, Payload: text, Code: code, Gen: gen})
+		defer after()
 		if h.failAt == len(h.Events)-1 {
 			return h.failErr
 		}
